@@ -266,27 +266,43 @@ def _is_named_symbolic_dim(dim: Any) -> bool:
 
 
 def _shapes_compatible(a: Optional[ir.Value], b: Optional[ir.Value]) -> bool:
-    ta, tb = _shape_tuple(a), _shape_tuple(b)
-    if ta is None or tb is None or len(ta) != len(tb):
+    """Whether a Reshape chain from ``a`` to ``b`` is provably the identity.
+
+    Both ends hold the same number of elements, so once every other axis is
+    provably equal (same integer, or the same named symbol) at most one axis
+    may stay unresolved (unknown, or a symbol against anything else): it is
+    forced to be equal too. More than one unresolved axis proves nothing, e.g.
+    [B, 3] -> [3, B] is only the identity when B happens to be 3.
+    """
+    if a is None or b is None:
         return False
-    dims_a = _shape_dims_seq(a.shape) if a is not None else None
-    dims_b = _shape_dims_seq(b.shape) if b is not None else None
-    for axis, (da, db) in enumerate(zip(ta, tb)):
-        if da == -1 or db == -1:
-            # Two *named* symbols are only interchangeable when they are the
-            # same symbol; unknown dims keep acting as wildcards.
-            if dims_a is not None and dims_b is not None:
-                sym_a, sym_b = dims_a[axis], dims_b[axis]
-                if (
-                    _is_named_symbolic_dim(sym_a)
-                    and _is_named_symbolic_dim(sym_b)
-                    and _dim_token(sym_a) != _dim_token(sym_b)
-                ):
-                    return False
+    dims_a = _shape_dims_seq(a.shape)
+    dims_b = _shape_dims_seq(b.shape)
+    if dims_a is None or dims_b is None or len(dims_a) != len(dims_b):
+        return False
+    unresolved = 0
+    has_zero = False
+    for da, db in zip(dims_a, dims_b):
+        a_int = isinstance(da, (int, np.integer))
+        b_int = isinstance(db, (int, np.integer))
+        if a_int and b_int:
+            if int(da) != int(db):
+                return False
+            has_zero = has_zero or int(da) == 0
             continue
-        if da != db:
-            return False
-    return True
+        if (
+            not a_int
+            and not b_int
+            and _is_named_symbolic_dim(da)
+            and _is_named_symbolic_dim(db)
+            and _dim_token(da) == _dim_token(db)
+        ):
+            continue
+        unresolved += 1
+    if unresolved == 0:
+        return True
+    # A zero-sized axis makes the element count uninformative.
+    return unresolved == 1 and not has_zero
 
 
 # ---------------- Attr access ----------------
